@@ -355,7 +355,7 @@ def run_case(case):
                     key = 'min_finest_pair_order_margin_x100:%s:p%d' % (integ, pcap)
                     counters[key] = min(counters.get(key, 10 ** 6), int((qf - pcap) * 100))
                 semi = tp and tp_type == 1 and any(q_ > 0 for q_ in m[n_active:]) and (opts.get('ri_whfast.kernel') in ('modifiedkick', 'lazy') or str(opts.get('ri_saba.type', '')).startswith(('cm', 'cl')))
-                thr = pcap - (1.0 if pcap <= 4 else 2.0)               # 6th/8th order compositions sit 1-1.7 below their order at these step sizes (measured)
+                thr = pcap - (1.0 if pcap <= 4 else (2.0 if pcap <= 6 else 2.5))   # 6th/8th order compositions sit 1-2.1 below their order at 12-24 steps per period (measured over 5 thorough seeds); a wrong coefficient drops them to order 2
                 if max(qs) < thr and lower_bounds_only:
                     # a pair whose finer run sits at the rounding floor only bounds the order from below: the dynamic range between the
                     # coarser error and the floor is too small to show the advertised order - not measurable, not a violation
